@@ -139,6 +139,24 @@ void static_forms(const std::string& from, const std::string& to) {
       chk("ConvertStatically array<3>", Vector<T>(r), 3);
       const std::array<T, 9> b{in[0], in[1], in[2], in[3], in[4], in[5], in[6], in[7], in[8]};
       chk("ConvertStatically array<9>", Dyad<T>(ConvertStatically<E, From, To, 9, T>(b)), 9);
+      // other lengths: every slot of the result is the scalar conversion of the same slot
+      {
+        std::array<T, 17> c;
+        T w17[17];
+        for (int i = 0; i < 17; i++) {
+          c[i] = val<T>(i, pat);
+          w17[i] = PhQ::Convert(c[i], From, To);
+        }
+        const auto r17 = ConvertStatically<E, From, To, 17, T>(c);
+        const auto r4 = ConvertStatically<E, From, To, 4, T>(std::array<T, 4>{c[0], c[1], c[2], c[3]});
+        const auto r1 = ConvertStatically<E, From, To, 1, T>(std::array<T, 1>{c[0]});
+        vf::stat("container_conversions", 3);
+        for (int i = 0; i < 17; i++)
+          if (!(ulpdiff(r17[i], w17[i]) <= 1.0) || (i < 4 && !(ulpdiff(r4[i], w17[i]) <= 1.0)) || (i < 1 && !(ulpdiff(r1[i], w17[i]) <= 1.0))) {
+            p.fail("ConvertStatically array<17/4/1>", i, 17, r17[i], w17[i]);
+            break;
+          }
+      }
     }
     chk("ConvertStatically PlanarVector", ConvertStatically<E, From, To>(PlanarVector<T>(in[0], in[1])), 2);
     chk("ConvertStatically Vector", ConvertStatically<E, From, To>(Vector<T>(in[0], in[1], in[2])), 3);
